@@ -87,3 +87,26 @@ func BadIndexNoLowerBound(arr []string, i interface{}) (string, error) {
 	}
 	return arr[idx], nil
 }
+
+// GoodLoopWindow: an induction variable bounded by a clamped end.
+func GoodLoopWindow(arr []int64, a, b interface{}) (int64, error) {
+	start, ok := a.(int64)
+	if !ok {
+		return 0, errors.New("start")
+	}
+	end, ok := b.(int64)
+	if !ok {
+		return 0, errors.New("end")
+	}
+	if start < 0 {
+		start = 0
+	}
+	if end > int64(len(arr)) {
+		end = int64(len(arr))
+	}
+	var sum int64
+	for i := start; i < end; i++ {
+		sum += arr[i]
+	}
+	return sum, nil
+}
